@@ -82,3 +82,27 @@ Theorem C07_reference_hypotheses :
    normalize_label ($"The  Label") = normalize_label ($"the label")).
 Proof. split; [exact ref_configs|exact reference_instance]. Qed.
 Print Assumptions C07_reference_hypotheses.
+
+(* ... the other two reference forms, [text][label] and [label][], resolve the same way (the label scanner followed over a label of
+   any length), and a reference whose label has NO definition stays literal text, brackets included *)
+Theorem C07_full_reference_in_sentence : forall types fn pre t lab post dest title,
+  ref_spans types = true -> full_ok pre t lab post = true -> fn_get (normalize_label lab) fn = Some (dest, title) ->
+  tokenize_inner types fn (pre ++ [91%Z] ++ t ++ [93%Z; 91%Z] ++ lab ++ [93%Z] ++ post) =
+  raw_if pre ++ [Link (mkLink (Unescape.escape_strip (strip dest)) (Unescape.escape_strip title) $"full" (Some lab) []) [RawText t]] ++ raw_if post.
+Proof. exact full_reference_in_sentence. Qed.
+Print Assumptions C07_full_reference_in_sentence.
+
+Theorem C07_collapsed_reference_in_sentence : forall types fn pre t post dest title,
+  ref_spans types = true -> full_ok pre t t post = true -> fn_get (normalize_label t) fn = Some (dest, title) ->
+  tokenize_inner types fn (pre ++ [91%Z] ++ t ++ [93%Z; 91%Z; 93%Z] ++ post) =
+  raw_if pre ++ [Link (mkLink (Unescape.escape_strip (strip dest)) (Unescape.escape_strip title) $"collapsed" None []) [RawText t]] ++ raw_if post.
+Proof. exact collapsed_reference_in_sentence. Qed.
+Print Assumptions C07_collapsed_reference_in_sentence.
+
+From Mistletoe Require Import Proofs.PlainProse.
+Theorem C07_reference_without_definition : forall types fn pre w post,
+  ref_spans_q types = true -> plain_text pre && plain_text w && plain_text post && negb (hd 0%Z post =? 40)%Z = true ->
+  fn_get (normalize_label w) fn = None ->
+  tokenize_inner types fn (pre ++ [91%Z] ++ w ++ [93%Z] ++ post) = [RawText (pre ++ [91%Z] ++ w ++ [93%Z] ++ post)].
+Proof. exact reference_without_definition. Qed.
+Print Assumptions C07_reference_without_definition.
